@@ -2283,7 +2283,7 @@ def r02_12(prog, rep, rid='R02.12'):
                                 'test the recogniser knows' % f.where)
         # where success is decided: `return <true constant>` or the
         # assignment of a true constant to the flag that is returned
-        events = []
+        events, selfguard = [], set()
         for n in g.stmt_nodes():
             if n.kind != 'stmt' or not isinstance(n.ast, ast.Return):
                 continue
@@ -2301,6 +2301,17 @@ def r02_12(prog, rep, rid='R02.12'):
                         if x.value:
                             events.append((d_, n))
                     continue
+            # the placement itself / its non-emptiness is what is returned
+            # (`return bool(slots)`, `return len(slots) > 0`): a true value
+            # exactly when the placement is not empty
+            w = v.args[0] if isinstance(v, ast.Call) and \
+                dotted(v.func) == 'bool' and len(v.args) == 1 else v
+            vn = [V.id for at, V in grants if isinstance(V, ast.Name) and
+                  origin(g, V.id, n.id) >= origin(g, V.id, at.id)]
+            if vn and _nonempty_edge(w, vn[0]) == 'T':
+                events.append((n, n))
+                selfguard.add(n.id)
+                continue
             raise AnalysisError('UNRECOGNISED-IDIOM %s: `%s` is neither a '
                                 'constant nor a flag set from constants'
                                 % (f.where, short(n.ast, 50)))
@@ -2344,7 +2355,9 @@ def r02_12(prog, rep, rid='R02.12'):
                       "per proc'), _try_allocation returns True and "
                       '_schedule_incoming advances B to '
                       'AGENT_EXECUTING_PENDING with no slots instead of FAILED')
-            if not reads:
+            if ev.id in selfguard:
+                ok2 = True
+            elif not reads:
                 ok2 = False
             else:
                 r2 = g.reachable(g.entry.id, skip_edges=nonempty)
@@ -3274,6 +3287,9 @@ MUTATIONS = [
          edits=_fs_picked(gpu_count='n_cores')),
     dict(name='R02.11 find_slot, pick helper returns the list: short GPU list is not refused', rules=('R02.11',),
          edits=_fs_picked(gpu_test='False')),
+    dict(name='R02.12 bool(slots) returned before the placement is stored, handler swallows', rules=('R02.12',), edits=[
+        (_B, "            task['exception_detail'] = '\\n'.join(ru.get_exception_trace())\n            raise\n\n        return True\n", "            task['exception_detail'] = '\\n'.join(ru.get_exception_trace())\n\n        return bool(slots)\n"),
+        (_B, "        try:\n            uid = task['uid']\n", "        slots = None\n        try:\n            uid = task['uid']\n")]),
 ]
 
 SILENT = [
@@ -3421,4 +3437,6 @@ SILENT = [
          edits=_fs_picked()),
     dict(name='find_slot: pick helper returns the list, short test as bound > len', edits=_fs_picked(gpu_test='n_gpus > len(gpus)')),
     dict(name='find_slot: pick helper returns the list, stop test as >=', edits=_fs_picked(stop='len(picked) >= count')),
+    dict(name='_try_allocation: success signalled by returning bool(slots) from inside the try (SILENT variant of C01)', edits=[
+        (_B, "            self._prof.prof('schedule_ok', uid=uid)\n\n        except Exception as e:", "            self._prof.prof('schedule_ok', uid=uid)\n            return bool(slots)\n\n        except Exception as e:")]),
 ]
